@@ -57,6 +57,9 @@ type swSc struct {
 	// lookups a region reprovide completes at the very nanosecond of its schedule slot, a coincidence of "now" with a slot
 	// offset that a real clock cannot produce (the schedule arithmetic treats an offset equal to now as a full interval away).
 	LookupMs int `json:"lookup_ms,omitempty"`
+	// SendMs is what one successful ADD_PROVIDER send costs in virtual time (0 = instantaneous): with slow sends a region
+	// (re)provide lasts long enough for API calls and Close to arrive while it is in flight.
+	SendMs int `json:"send_ms,omitempty"`
 }
 
 type advert struct {
@@ -130,6 +133,7 @@ func (r *swRouter) GetClosestPeers(ctx context.Context, k string) ([]peer.ID, er
 
 type swSender struct {
 	st    *swarmState
+	cost  time.Duration
 	start time.Time
 	keyOf map[string]int
 	mu    sync.Mutex
@@ -154,6 +158,13 @@ func (s *swSender) SendMessage(ctx context.Context, p peer.ID, m *pb.Message) er
 		case <-ctx.Done():
 		}
 		return errors.New("verif: peer unreachable")
+	}
+	if s.cost > 0 {
+		select {
+		case <-time.After(s.cost):
+		case <-ctx.Done():
+			return ctx.Err()
+		}
 	}
 	ki, ok := s.keyOf[string(m.GetKey())]
 	if !ok {
@@ -204,7 +215,7 @@ func runSweep(t *testing.T, sc *swSc) swObs {
 		for _, m := range sc.Swarm {
 			st.members[m] = true
 		}
-		sender := &swSender{st: st, start: time.Now(), keyOf: map[string]int{}, idx: map[peer.ID]int{}}
+		sender := &swSender{st: st, start: time.Now(), keyOf: map[string]int{}, idx: map[peer.ID]int{}, cost: time.Duration(sc.SendMs) * time.Millisecond}
 		for i := 0; i < swPool; i++ {
 			sender.idx[peer.ID(pp.IDs[i])] = i
 		}
@@ -277,8 +288,10 @@ func runSweep(t *testing.T, sc *swSc) swObs {
 						obs.Errs = append(obs.Errs, fmt.Sprintf("minute %d StartProviding: %v", m, err))
 					}
 					for _, k := range e.Keys {
-						if _, ok := obs.StartAt[k%len(mhs)]; !ok {
-							obs.StartAt[k%len(mhs)] = m
+						_, started := obs.StartAt[k%len(mhs)]
+						_, stopped := obs.StopAt[k%len(mhs)]
+						if !started || stopped {
+							obs.StartAt[k%len(mhs)] = m // (a key started again after a stop begins a new kept period)
 						}
 						delete(obs.StopAt, k%len(mhs))
 					}
@@ -338,6 +351,27 @@ func runSweep(t *testing.T, sc *swSc) swObs {
 						outageEnd = m + max(1, e.DurMin)
 						obs.Outages = append(obs.Outages, [2]int{m, sc.TotalMin + 1})
 					}
+				case "busy-restart":
+					// Close while the provides just asked for are still in flight (lookups and sends cost virtual time), then reopen
+					// on the same datastore: work still queued or in flight at Close has to be resumed
+					if e.Force {
+						prov.StartProviding(true, keysOf(e)...)
+						for _, k := range e.Keys {
+							_, started := obs.StartAt[k%len(mhs)]
+							_, stopped := obs.StopAt[k%len(mhs)]
+							if !started || stopped {
+								obs.StartAt[k%len(mhs)] = m // (a key started again after a stop begins a new kept period)
+							}
+							delete(obs.StopAt, k%len(mhs))
+						}
+					} else {
+						prov.ProvideOnce(keysOf(e)...)
+						for _, k := range e.Keys {
+							obs.OnceAt[k%len(mhs)] = append(obs.OnceAt[k%len(mhs)], m)
+						}
+					}
+					time.Sleep(time.Duration(e.DurMin) * time.Millisecond) // (DurMin holds milliseconds for this event)
+					fallthrough
 				case "restart":
 					prov.Close()
 					ks.Close()
@@ -430,6 +464,8 @@ func judgeSweep(sc *swSc, obs *swObs, res *verifsim.Result) (cycles int) {
 		addr string
 	}
 	perKey := map[int][]*ad{}
+	// (with slow sends a peer receives its keys one after the other: the sends of one key to its r peers can lie that far apart)
+	groupGap := 10*time.Second + 2*time.Duration(len(sc.Keys)*sc.SendMs)*time.Millisecond
 	type rawSend struct {
 		at   time.Duration
 		to   int
@@ -456,7 +492,7 @@ func judgeSweep(sc *swSc, obs *swObs, res *verifsim.Result) (cycles int) {
 		ads := perKey[a.Key]
 		// one advertisement = the sends of a key that follow each other within 10 s (lookups and failing sends cost virtual time,
 		// so the sends of one provide operation are spread over a few seconds)
-		if len(ads) == 0 || a.At-ads[len(ads)-1].last > 10*time.Second {
+		if len(ads) == 0 || a.At-ads[len(ads)-1].last > groupGap {
 			ads = append(ads, &ad{at: a.At, to: map[int]bool{}, addr: a.Addrs})
 		}
 		ads[len(ads)-1].last = a.At
@@ -582,8 +618,23 @@ func judgeSweep(sc *swSc, obs *swObs, res *verifsim.Result) (cycles int) {
 		}
 		return false
 	}
+	var completeAt func(k int, a *ad, m int) (bool, string)
+	// an advertisement is planned (lookups) before it is sent: with lookups and sends that cost time, one whose first send
+	// comes shortly after an event instant was planned against the swarm as it was before the event - either state is accepted
 	complete := func(k int, a *ad) (bool, string) {
 		m := stateMinute(a.at)
+		ok, why := completeAt(k, a, m)
+		if !ok && m > 0 {
+			sinceEvent := a.at - (time.Duration(m)*time.Minute + 17*time.Second)
+			if sinceEvent <= groupGap+30*time.Second {
+				if ok2, _ := completeAt(k, a, m-1); ok2 {
+					return true, ""
+				}
+			}
+		}
+		return ok, why
+	}
+	completeAt = func(k int, a *ad, m int) (bool, string) {
 		sw := swarmAtMinute(obs, m)
 		bad := unreachAtMinute(obs, m)
 		want := nearestR(sw, sha256.Sum256([]byte(kp.IDs[sc.Keys[k]])), sc.R)
@@ -662,6 +713,21 @@ func judgeSweep(sc *swSc, obs *swObs, res *verifsim.Result) (cycles int) {
 						if time.Duration(om)*time.Minute <= a.at && a.at <= extendByOutages(time.Duration(om+2)*time.Minute) {
 							viaOnce = true
 						}
+						// (or later still, when every attempt so far failed or fell short - e.g. all targets unreachable - and this
+						// is the provide-once finally being carried out: no complete advertisement since the call)
+						if time.Duration(om)*time.Minute <= a.at {
+							fulfilled := false
+							for _, a2 := range ads {
+								if a2.at >= time.Duration(om)*time.Minute && a2.at < a.at {
+									if ok, _ := complete(k, a2); ok {
+										fulfilled = true
+									}
+								}
+							}
+							if !fulfilled {
+								viaOnce = true
+							}
+						}
 					}
 					if !viaOnce {
 						res.Fail("stop-stops", "C17/sweep/advertised-after-stop", "key %d re-advertised at %v although StopProviding was called at minute %d", k, a.at, stopM)
@@ -673,13 +739,19 @@ func judgeSweep(sc *swSc, obs *swObs, res *verifsim.Result) (cycles int) {
 		// (a) initial advertisement after start / provide-once while online
 		checkInitial := func(m int, what string) bool {
 			from := time.Duration(m)*time.Minute + 17*time.Second
-			if inOutage(from-time.Minute, from+2*time.Minute) || nearRestart(from-time.Minute, from+2*time.Minute) || noReachableTarget(k, from, from+time.Minute) {
+			if inOutage(from-time.Minute, from+2*time.Minute) || noReachableTarget(k, from, from+time.Minute) {
 				return true
+			}
+			// a restart right before or after the call: what was asked for is persisted at Close and resumed, so it has to be
+			// advertised once the restarted instance has caught up
+			until := from + time.Minute + time.Second
+			if nearRestart(from-time.Minute, from+2*time.Minute) {
+				until = extendByOutages(from + 2*time.Minute)
 			}
 			// the sends of the key between the call and the next quiescence, whatever advertisement group they fall in
 			var win *ad
 			for _, rs := range raw[k] {
-				if rs.at >= from && rs.at <= from+time.Minute+time.Second {
+				if rs.at >= from && rs.at <= until {
 					if win == nil {
 						win = &ad{at: rs.at, to: map[int]bool{}, addr: rs.addr}
 					}
@@ -768,7 +840,8 @@ func judgeSweep(sc *swSc, obs *swObs, res *verifsim.Result) (cycles int) {
 				last = tm
 			}
 			for _, a := range ads {
-				if a.at > time.Duration(startM+2)*time.Minute && a.at <= until && !inOutage(a.at-time.Minute, a.at+time.Minute) {
+				// (an advertisement that a Close cut short is finished by the restarted instance, as a separate run of sends)
+				if a.at > time.Duration(startM+2)*time.Minute && a.at <= until && !inOutage(a.at-time.Minute, a.at+time.Minute) && !nearRestart(a.at-time.Minute, a.last+time.Minute) {
 					if ok, why := complete(k, a); !ok {
 						sig := "C17/sweep/reprovide/incomplete"
 						if sc.lopsided() {
@@ -918,6 +991,7 @@ func genSweep(t *rapid.T, regime string) swSc {
 	nk := rapid.IntRange(1, 60).Draw(t, "nKeys")
 	sc.Keys = rapid.SliceOfNDistinct(rapid.IntRange(0, swPool-1), nk, nk, func(i int) int { return i }).Draw(t, "keys")
 	sc.LookupMs = rapid.SampledFrom([]int{1, 3, 20, 150}).Draw(t, "lookupMs")
+	sc.SendMs = rapid.SampledFrom([]int{0, 0, 0, 30, 400}).Draw(t, "sendMs")
 	sc.IntervalM = rapid.SampledFrom([]int{30, 60}).Draw(t, "interval")
 	sc.DelayM = rapid.SampledFrom([]int{5, 10}).Draw(t, "delay")
 	w := rapid.SampledFrom([][3]int{{4, 2, 1}, {1, 0, 0}, {2, 1, 1}, {8, 0, 0}}).Draw(t, "workers")
@@ -927,11 +1001,45 @@ func genSweep(t *rapid.T, regime string) swSc {
 	for i := range allKeys {
 		allKeys[i] = i
 	}
-	sc.Events = append(sc.Events, swEv{AtMin: rapid.IntRange(0, 3).Draw(t, "startAt"), Ev: "start", Force: true, Keys: allKeys})
+	// keys started at the beginning: all of them, or a leading part (the rest can be started later, as a group sharing a prefix)
+	first := allKeys
+	var late []int
+	if nk >= 6 && verifsim.Chance(t, "lateKeys", 40) {
+		// the late group: 3-6 keys under one 1-3 bit prefix (a sub-region that holds none of the early keys is the interesting case)
+		kp := swkp()
+		l := rapid.IntRange(1, 3).Draw(t, "latePrefixLen")
+		pfx := ""
+		for j := 0; j < l; j++ {
+			pfx += string(rune('0' + rapid.IntRange(0, 1).Draw(t, "lateBit")))
+		}
+		first = nil
+		for i, kidx := range sc.Keys {
+			if strings.HasPrefix(verifsim.BitString(sha256.Sum256([]byte(kp.IDs[kidx])), 8), pfx) && len(late) < 6 {
+				late = append(late, i)
+			} else {
+				first = append(first, i)
+			}
+		}
+		if len(late) < 3 || len(first) == 0 {
+			first, late = allKeys, nil
+		}
+	}
+	sc.Events = append(sc.Events, swEv{AtMin: rapid.IntRange(0, 3).Draw(t, "startAt"), Ev: "start", Force: true, Keys: first})
 	// one event per minute at most: two events in one minute would share a virtual instant
 	ats := rapid.SliceOfNDistinct(rapid.IntRange(4, sc.TotalMin-2), 0, 5, func(i int) int { return i }).Draw(t, "eventMinutes")
+	lateDone := false
 	for _, at := range ats {
-		switch rapid.IntRange(0, 7).Draw(t, "kind") {
+		if len(late) > 0 && !lateDone && at >= sc.IntervalM/2 {
+			// (after the first reprovides, so that the regions have been explored and possibly split)
+			sc.Events = append(sc.Events, swEv{AtMin: at, Ev: "start", Force: true, Keys: late})
+			lateDone = true
+			continue
+		}
+		switch rapid.IntRange(0, 8).Draw(t, "kind") {
+		case 8:
+			ev := swEv{AtMin: at, Ev: "busy-restart", Force: rapid.Bool().Draw(t, "busyStart"), Keys: rapid.SliceOfN(rapid.IntRange(0, nk-1), 1, 8).Draw(t, "busyKeys"),
+				DurMin: rapid.SampledFrom([]int{0, 1, 10, 100, 1000}).Draw(t, "busyMs")}
+			sc.Events = append(sc.Events, ev)
 		case 0:
 			sc.Events = append(sc.Events, swEv{AtMin: at, Ev: "stop", Keys: rapid.SliceOfN(rapid.IntRange(0, nk-1), 1, 4).Draw(t, "stopKeys")})
 		case 1:
